@@ -38,8 +38,16 @@ Proof. exists w_range_bool_st, w_range_bool_p. split; [reflexivity|]. intro H. v
 (** gql | MATCH (n:A) WHERE n.w <> 5 RETURN n *)
 Definition w_zone_ne_st : store := (mkStore [mkNode (0) ["A"%string] [("u"%string, (VInt (100))); ("w"%string, (VInt (5)))]; mkNode (1) ["A"%string] [("u"%string, (VInt (101))); ("w"%string, (VStr "a"%string))]; mkNode (2) ["A"%string] [("u"%string, (VInt (102))); ("w"%string, VNull)]; mkNode (3) ["A"%string] [("u"%string, (VInt (103)))]] [] [] [("u"%string, mkZcol [(VInt (100)); (VInt (101)); (VInt (102)); (VInt (103))] false); ("w"%string, mkZcol [(VInt (5)); (VStr "a"%string); VNull] false)]).
 Definition w_zone_ne_p : lop := (LReturn [((EVar "n"%string), None)] false (LFilter (ECmp ONe (EProp "n"%string "w"%string) (ELit (VInt (5)))) (LScan "n"%string (Some "A"%string)))).
-Lemma zone_ne_refuted_l : exists st p, k_zone_ne st p = true /\ run (opts_engine true) st p <> sem_ops st p.
-Proof. exists w_zone_ne_st, w_zone_ne_p. split; [reflexivity|]. intro H. vm_compute in H. discriminate H. Qed.
+(** repaired by 1879631: the pre-repair column check claimed "no match" for [<> 5] on this column
+    although its string and NULL values satisfy the predicate; the current check does not prune, and
+    the physical plan agrees with the logical one *)
+Lemma zone_ne_pre_refuted_l : exists c v v',
+  col_might_match_pre c ONe v = false /\ List.In v' (zhist c) /\ cmp_result ONe v' v = Some (VBool true) /\
+  col_might_match c ONe v = true /\ run (opts_engine true) w_zone_ne_st w_zone_ne_p = sem_ops w_zone_ne_st w_zone_ne_p.
+Proof.
+  exists (mkZcol [VInt 5; VStr "a"%string; VNull] false), (VInt 5), (VStr "a"%string).
+  split; [reflexivity|]. split; [right; left; reflexivity|]. split; [reflexivity|]. split; reflexivity.
+Qed.
 
 (** gql | MATCH (a)-[r]->(b)-[s]->(c) RETURN count(DISTINCT a) *)
 Definition w_fact_agg_distinct_st : store := (mkStore [mkNode (0) ["A"%string] [("u"%string, (VInt (100)))]; mkNode (1) ["A"%string] [("u"%string, (VInt (101)))]; mkNode (2) ["B"%string] [("u"%string, (VInt (102)))]; mkNode (3) ["B"%string] [("u"%string, (VInt (103)))]] [mkEdge (0) (0) (1) "R"%string []; mkEdge (1) (1) (2) "R"%string []; mkEdge (2) (1) (3) "R"%string []] [] [("u"%string, mkZcol [(VInt (100)); (VInt (101)); (VInt (102)); (VInt (103))] false)]).
